@@ -82,6 +82,8 @@ def act_sexp(a):
         return ""
     if k == "setparam":
         return "(c 1)"
+    if k == "badparam":
+        return "(c 0)"
     if k == "c":
         return "(c %d)" % a[1]
     if k in ("skip", "expect", "call"):
@@ -146,6 +148,8 @@ def act_scn(a):
         return a[1]
     if k == "setparam":
         return "setparam"
+    if k == "badparam":
+        return "badparam"
     raise ValueError(a)
 
 
